@@ -48,6 +48,7 @@ type stallConn struct {
 	closeCalls int
 	once       sync.Once
 	sonce      sync.Once
+	dribble    int // >0: every Read hands out at most this many bytes
 }
 
 func newStall(c *kit.BufConn, kind string, k int) *stallConn {
@@ -63,6 +64,9 @@ func (s *stallConn) Read(p []byte) (int, error) {
 		s.sonce.Do(func() { close(s.stalled) })
 		<-s.released
 		return 0, net.ErrClosed
+	}
+	if s.dribble > 0 && len(p) > s.dribble {
+		p = p[:s.dribble] // the peer's bytes arrive a few at a time, as over a slow link
 	}
 	return s.BufConn.Read(p)
 }
@@ -168,10 +172,13 @@ func runCase(c Case) outcome {
 		endConn, peerConn = sc, cc
 	}
 	kind := c.Kind
-	if c.Variant == "baseline" || c.Variant == "after" || c.Variant == "background" || c.Variant == "before" {
+	if c.Variant == "baseline" || c.Variant == "after" || c.Variant == "background" || c.Variant == "before" || c.Variant == "background-dribble" || c.Variant == "cancellable-dribble" {
 		kind = ""
 	}
 	st := newStall(endConn, kind, c.K)
+	if c.Variant == "background-dribble" || c.Variant == "cancellable-dribble" {
+		st.dribble = 2
+	}
 	ccfg, scfg := configs(c.Shape)
 	if c.Shape == "resumed" || c.Shape == "resume-unknown" {
 		r := kit.Handshake(ccfg, scfg, 3*time.Second)
@@ -240,7 +247,7 @@ func runCase(c Case) outcome {
 	var ctx context.Context
 	cancel := func() {}
 	switch c.Variant {
-	case "background", "baseline":
+	case "background", "baseline", "background-dribble":
 		ctx = context.Background()
 	case "deadline":
 		ctx, cancel = context.WithTimeout(context.Background(), 60*time.Millisecond)
@@ -480,7 +487,7 @@ func judge(c Case, o outcome, base outcome) string {
 		if plain(c.Role) && !errors.Is(o.err, context.Canceled) {
 			return fmt.Sprintf("plain stream operation returned %q, not context.Canceled", o.err)
 		}
-	case "after", "background":
+	case "after", "background", "background-dribble", "cancellable-dribble":
 		if !o.returned {
 			return "the call did not return although nothing stalled"
 		}
@@ -523,7 +530,9 @@ func TestC19Stalls(t *testing.T) {
 			continue
 		}
 		ev.Sample("baseline", map[string]any{"shape": p.shape, "role": p.role, "reads": base.reads, "writes": base.writes, "succeeds": base.ok})
-		for _, v := range []string{"before", "after", "background"} {
+		// "-dribble": the peer's bytes arrive two at a time (every header and body split across reads), under a
+		// context that can never be cancelled and under one that could be but is not
+		for _, v := range []string{"before", "after", "background", "background-dribble", "cancellable-dribble"} {
 			jobs = append(jobs, job{Case{Shape: p.shape, Role: p.role, Variant: v}, base})
 		}
 		variants := []string{"cancel", "deadline", "cancel-dl", "parent-cancel"} // cheap enough
